@@ -74,7 +74,8 @@ CFG["manifest"] = dict(
          "to the model; every run drives the real Broker (1-16 goroutines, MaxOpenRequests 1/2/5; Metadata, FindCoordinator, ListPartitionReassignments "
          "(header v1), Produce without response, and Fetch/JoinGroup/SyncGroup/DescribeGroups whose responses carry raw byte fields marked per request) against a "
          "scripted server - fast, or slow-but-alive (every answer just under Net.ReadTimeout with several calls pipelined) followed by each kind of fault, later calls, "
-         "Connected() and Close() - judges each call by the property oracle (own response incl. all byte fields, compared when the call returns and again after the "
+         "Connected() and Close(); plus request writes that fail with 0 bytes written on a connection that stays usable (the failed call returns an error, no promise is left behind, "
+         "ids keep advancing) - judges each call by the property oracle (own response incl. all byte fields, compared when the call returns and again after the "
          "other responses of the connection were read; nothing delivered after a fault; every call, Connected() and Close() return within a bound) and replays the "
          "totally ordered log of writes/sends/time-outs/returns through the model's step.",
     note="Trusted: Lean kernel; translator + GoSem for the two bridged fragments; the harness connection and line protocol. Modelled not verified: Go's mutex/"
